@@ -256,7 +256,19 @@ def rule_perfectari(ctx):
             yield o
 
 
+def rule_nmifloor(ctx):
+    """Shared with C01.GUARDTABLE/VALUEDEN: NMI = MI / max(sqrt(H_ref * H_est), 1e-10): the floor keeps the index finite
+    (0) when exactly one side is a single cluster."""
+    from . import c01
+
+    for o in c01.rule_guardtable(ctx):
+        if o.construct.startswith("segment._normalized_mutual_info_score"):
+            o.rule = "C16.NMIFLOOR"
+            yield o
+
+
 RULES = [
+    ("C16.NMIFLOOR", 1, rule_nmifloor),
     ("C16.NCEFORM", 5, rule_nceform),
     ("C16.FRAMEGRID", 4, rule_framegrid),
     ("C16.TRIVIALGUARD", 3, rule_perfectari),
